@@ -163,7 +163,7 @@ impl G<'_> {
         pick(
             self.r,
             &[
-                "text", " lead", "trail ", "  both  ", "a\n   b\n  c", "\n  \n", "\n", " ", "&amp;&nbsp;&#x41;&lt;", "é 日本 🙂", "a  b", "\ttab\t", "x\n", "\n y", "it's \"q\"", "a\u{a0}b", "\r\n  z", "&notanentity;", "&#0;", "",
+                "text", " lead", "trail ", "  both  ", "a\n   b\n  c", "\n  \n", "\n", " ", "&amp;&nbsp;&#x41;&lt;", "é 日本 🙂", "a  b", "\ttab\t", "x\n", "\n y", "it's \"q\"", "a\u{a0}b", "\r\n  z", "&notanentity;", "&#0;", "", "line&#13;", "&#xD;", "&#10;x", "tab&#9;", "a&#x2028;b",
             ],
         )
         .to_string()
@@ -646,5 +646,13 @@ pub fn module_like(r: &mut Rng, ts: bool) -> GenModule {
     }
     let comments = g.r.chance(75);
     let options = options(g.r);
-    GenModule { src: lines.join("\n") + "\n", ts, options, comments }
+    // line-ending convention of the file
+    let eol = match g.r.below(30) {
+        0 | 1 => "\r\n",
+        2 => "\r",
+        _ => "\n",
+    };
+    let src = lines.join("\n") + "\n";
+    let src = if eol == "\n" { src } else { src.replace('\n', eol) };
+    GenModule { src, ts, options, comments }
 }
